@@ -376,5 +376,6 @@ func gen(t *rapid.T) Case {
 func TestCheck(t *testing.T) {
 	r := vlib.NewRunner(t, "C17")
 	vlib.RunCheck(r, vlib.Check[Case]{Name: "bound", N: r.Pick(8000, 150000), Gen: gen, Run: runCase, Confirm: true, RecordCurrent: true})
+	runShimTier(r)
 	r.Finish()
 }
